@@ -689,3 +689,31 @@ mod test {
     assert_eq!(has.defined_vars(), ["A"].into_iter().collect());
   }
 }
+
+/// Verification hooks (cargo feature `verif-hooks`): build relational rules from parts,
+/// without going through the serializable representation.
+#[cfg(feature = "verif-hooks")]
+#[doc(hidden)]
+pub mod verif_hooks {
+  use super::*;
+  pub fn has<L: Language>(inner: Rule<L>, stop_by: StopBy<L>, field: Option<u16>) -> Rule<L> {
+    Rule::Has(Box::new(Has {
+      inner,
+      stop_by,
+      field,
+    }))
+  }
+  pub fn inside<L: Language>(outer: Rule<L>, stop_by: StopBy<L>, field: Option<u16>) -> Rule<L> {
+    Rule::Inside(Box::new(Inside {
+      outer,
+      stop_by,
+      field,
+    }))
+  }
+  pub fn follows<L: Language>(former: Rule<L>, stop_by: StopBy<L>) -> Rule<L> {
+    Rule::Follows(Box::new(Follows { former, stop_by }))
+  }
+  pub fn precedes<L: Language>(later: Rule<L>, stop_by: StopBy<L>) -> Rule<L> {
+    Rule::Precedes(Box::new(Precedes { later, stop_by }))
+  }
+}
